@@ -49,7 +49,7 @@ class Ctx:
         self.seed = seed
         self.repo = REPO
         self.rng = random.Random(f"{prop}-{seed}")
-        self.driver = leanio.Driver()
+        self.driver = leanio.Driver([prop])
         self.failures: list[Failure] = []
         self.evaluations = 0
         self.nontrivial: set[str] = set()
@@ -136,7 +136,10 @@ def lean_stage(mod: Any, ctx: Ctx) -> dict[str, Any]:
     targets = list(dict.fromkeys([m for m, _ in thm_pairs + tie_pairs] + list(getattr(mod, "LEAN_TARGETS", []))))
     info: dict[str, Any] = {"obligations": len(theorems) + len(ties), "discharged": 0,
                             "theorems": theorems, "tie_theorems": ties}
-    ok, log = leanio.lake_build(["Kopf.Drv.All"])
+    mods = getattr(mod, "DRIVER_MODULES", None)
+    if mods is not None:
+        ctx.driver.modules = list(mods)
+    ok, log = leanio.lake_build(ctx.driver.build_targets())
     if not ok:
         print(log[-3000:], file=sys.stderr)
         raise RuntimeError("driver modules do not build (harness problem, not a property verdict)")
